@@ -10,6 +10,8 @@
 //	l<s>   try lseek(fd, 0, SEEK_SET) on descriptor 1|2 (fails with ESPIPE on a pipe), carry on
 //	g<s><N> a grandchild inheriting the descriptors writes the next N pattern bytes; the child waits for it
 //	@<s><off> set the pattern offset of stream s (used by the grandchild)
+//	n<N>   the command line must have N words after the program name (empty ones included), else exit 93
+//	z<i>   word i of the command line (os.Args[i]) must be the empty string, else exit 92
 //	co ce  close stdout / stderr (later writes to it fail and are lost)
 //	s<ms>  sleep
 //	b<ms>  leave a background descendant behind: it inherits stdout and stderr, writes nothing,
@@ -133,6 +135,14 @@ func main() {
 		case '@':
 			o, _ := strconv.ParseInt(tok[2:], 10, 64)
 			off[sidx(tok[1])] = o
+		case 'n':
+			if n, err := strconv.Atoi(arg); err != nil || len(os.Args)-1 != n {
+				os.Exit(93)
+			}
+		case 'z':
+			if i, err := strconv.Atoi(arg); err != nil || i >= len(os.Args) || os.Args[i] != "" {
+				os.Exit(92)
+			}
 		case 'c':
 			if arg == "o" {
 				files[0].Close()
